@@ -37,9 +37,10 @@ type WorldOpts struct {
 	AbsOnly      bool    // references to other documents are always absolute URLs (the root's location need not be known)
 	IDs          int     // 0 none; otherwise id variant (C04/C18 worlds only)
 	// faults (C08)
-	Dangling float64 // probability that a $ref slot points to a pointer that does not exist
-	IllTyped float64 // probability that a schema $ref slot points at a non-object
+	Dangling   float64 // probability that a $ref slot points to a pointer that does not exist
+	IllTyped   float64 // probability that a schema $ref slot points at a non-object
 	MissingDoc float64
+	HollowDoc  float64 // probability that a cross-document $ref goes to a document whose content is null
 	// Force, when set, pins the first slot: holder kind, ref form, directory relation (structured part)
 	Force *ForceSlot
 }
@@ -73,11 +74,11 @@ type slot struct {
 }
 
 type target struct {
-	doc  string
-	toks []string
-	kind string
-	rank int
-	top  bool // top-level element (definitions/x, parameters/x, ...)
+	doc       string
+	toks      []string
+	kind      string
+	rank      int
+	top       bool // top-level element (definitions/x, parameters/x, ...)
 	refHolder bool
 }
 
@@ -744,6 +745,13 @@ func (g *worldGen) fillSlots() {
 		if g.r.Float64() < g.o.MissingDoc && t.doc != s.doc {
 			tdoc = strings.TrimSuffix(t.doc, ".json") + "-missing.json"
 			g.feature("fault.missing-document")
+		}
+		if g.o.HollowDoc > 0 && t.doc != s.doc && tdoc == t.doc && len(toks) > 0 && g.r.Float64() < g.o.HollowDoc {
+			// a document that exists and is the JSON value null: every pointer into it designates nothing
+			// (only references with a pointer: whether null itself is an acceptable target is nobody's statement)
+			tdoc = strings.TrimSuffix(t.doc, ".json") + "-hollow.json"
+			g.w.Docs[tdoc] = nil
+			g.feature("fault.hollow-document")
 		}
 		text := RefText(s.doc, tdoc, toks, form)
 		s.holder["$ref"] = text
